@@ -20,7 +20,7 @@ PROP = "C05"
 N = {"quick": 150, "thorough": 10000}
 WORKERS = {"quick": 4, "thorough": 16}
 TIMEOUT = {"quick": 240, "thorough": 1000}
-CASE_TIMEOUT = 60.0
+CASE_TIMEOUT = 180.0
 RULE = ("seeded histories of 2-12 create_variables/remove_variables calls on md-grids with "
         "0-3 fractures (Cartesian and simplex, 2-D and 3-D); creations draw a name from a "
         "pool of 4 (names are re-used after removal and shared between calls on disjoint "
